@@ -123,7 +123,7 @@ def check_label(case) -> Result:
     hyd = any(_el(L) == 'H' for L in labels)
     affected = False
     ctx = dict(unlabelled=s0, labelled=s1, use_isotope_on_mods=on_mods, mono=mono)
-    for ion in (['p'] if hyd else IONS):
+    for ion in IONS:
         for z in ([0] if ion == 'p' or hyd else [1, 2]):
             comp = refchem.seq_comp(base['seq'])
             if ion == 'p':
@@ -140,6 +140,8 @@ def check_label(case) -> Result:
             kw = dict(ion_type=ion, charge=z, monoisotopic=mono)
             m0 = pt.mass(s0, **kw)
             m1 = pt.mass(s1, use_isotope_on_mods=on_mods, **kw)
+            if not on_mods and abs(pt.mass(s1, **kw) - m1) > 1e-9:
+                r.fail('a label reaches atoms inside modifications only when explicitly requested', 'C12/label/default-reaches-atoms-inside-modifications', **ctx)
             # average mode: the unlabelled mass uses tabulated average masses of named modifications, the labelled one their
             # compositions (C03 tolerance: 1e-3 per tabulated modification + 5 ppm)
             n_tab = sum(mm for t, mm in mods if refmods.resolve(t)['kind'] in ('unimod', 'psimod', 'glycan'))
@@ -166,7 +168,7 @@ def static_strategy():
     st_plain = gen.mass_mod_text(('num', 'formula', 'unimod'), gt_ok=False)
     # free text after '|INFO:' may contain an '@' (the rule's target separator is the LAST '@')
     st_text = st.one_of(st_plain, st_plain, st_plain, st_plain.map(lambda t: t + '|INFO:ask a@b.org'))
-    pm = gen.pep_model(alphabet='ACDEGKMSTP', min_len=1, max_len=20, kinds=('internal', 'nterm', 'cterm', 'static'), mod_strategy=one,
+    pm = gen.pep_model(alphabet=gen.AA20 + 'UO', min_len=1, max_len=20, kinds=('internal', 'nterm', 'cterm', 'static'), mod_strategy=one,
                        mod_list=st.lists(one, min_size=1, max_size=2), allow_empty=False, static_mod_text=st_text)
 
     @st.composite
